@@ -1146,6 +1146,8 @@ def run_suffix(ctx, fam):
         log('[C09] stage model of the sort driver (DivSufSort.tla: classify, offsets, B* copy, induce B, induce A with their contracts)')
         vlib.tlc_mc(ctx, 'DivSufSortMC.tla', 'DivSufSortMC_T.cfg' if t else 'DivSufSortMC.cfg', workers='16', timeout=1500)
         vlib.tlc_mc(ctx, 'DivSufSortMC.tla', 'DivSufSortMC_bT.cfg' if t else 'DivSufSortMC_b.cfg', workers='16', timeout=1500)
+        log('[C09] the same with both sorting engines transcribed (Variant impl: SsortImpl.tla + TrSortImpl.tla inside the stage model = complete implementation-shaped model of suffix.Sort)')
+        vlib.tlc_mc(ctx, 'DivSufSortMC.tla', 'DivSufSortMC_implT.cfg' if t else 'DivSufSortMC_impl.cfg', workers='16', timeout=2400)
         log('[C09] rank sort by prefix doubling (TrSortRounds.tla: consistent refinement, reads in range, finishes)')
         vlib.tlc_mc(ctx, 'TrSortRounds.tla', 'TrSortRounds_T.cfg' if t else 'TrSortRounds.cfg', workers='16', timeout=1500)
         log('[C09] tandem repeat copy of the rank sort (TrCopy.tla: transcribed trCopy / trPartialCopy on every situation of the scope)')
